@@ -131,6 +131,12 @@ impl TimeScale {
                 let (quot, rem) = (time / self.duration, time % self.duration);
                 if rem == 0.0 && quot >= 1.0 {
                     (self.duration, quot > 1.0)
+                } else if matches!(self.repeat, Repeat::Times(times) if quot >= (times as u64 + 1) as f32)
+                {
+                    // `duration * (times + 1)` is rounded, so a time that is already past the true
+                    // end of the last cycle can still get here. Never start a cycle beyond the last
+                    // one (which would wrap to 0%); hold the end position instead.
+                    (self.duration, true)
                 } else {
                     (rem, quot >= 1.0)
                 }
